@@ -74,16 +74,24 @@ func (c *counter) Inc(v int64) {
 }
 
 func (c *counter) value() int64 {
-	curr := atomic.LoadInt64(&c.curr)
-	verifYield("counter.value:loaded-curr")
+	// n.b. Report passes can run concurrently (report loop, Close, and the
+	//      report of a closed scope that is requested again), so the delta
+	//      must be claimed atomically: load prev before curr (so that a
+	//      non-decreasing counter never yields a negative delta) and only
+	//      hand out curr-prev if prev is still what we based it on.
+	for {
+		prev := atomic.LoadInt64(&c.prev)
+		verifYield("counter.value:loaded-prev")
 
-	prev := atomic.LoadInt64(&c.prev)
-	verifYield("counter.value:loaded-prev")
-	if prev == curr {
-		return 0
+		curr := atomic.LoadInt64(&c.curr)
+		verifYield("counter.value:loaded-curr")
+		if prev == curr {
+			return 0
+		}
+		if atomic.CompareAndSwapInt64(&c.prev, prev, curr) {
+			return curr - prev
+		}
 	}
-	atomic.StoreInt64(&c.prev, curr)
-	return curr - prev
 }
 
 func (c *counter) report(name string, tags map[string]string, r StatsReporter) {
